@@ -353,6 +353,20 @@ fn flowspecial_case(c: &J) -> Result<usize, String> {
 }
 
 fn lowrank_with(math: &mut CpuMath<DummyLogp>, n: usize, cols: &[Vec<f64>], vals: &[f64], rhs: &[f64], want: &[f64], scale: f64, what: &str) -> Result<(), String> {
+    // the result is a function of the arguments, not of what this backend applied before: first apply a transformation of
+    // a larger rank on the same backend (the rank of the eigenvector matrix shrinks between two calls whenever an
+    // adaptation window keeps fewer eigenvalues than the previous one)
+    let bigger = (cols.len() + 2).min(n);
+    if bigger > cols.len() {
+        let bc: Vec<Vec<f64>> = (0..bigger).map(|j| { let mut c = vec![0.0; n]; c[j] = 1.0; c }).collect();
+        let bv = math.new_eig_vectors(bc.iter().map(|c| c.as_slice()));
+        let be = math.new_eig_values(&vec![2.0; bigger]);
+        let vr0 = vecof(math, rhs);
+        let mut d0 = math.new_array();
+        math.apply_lowrank_transform(&bv, &be, &vr0, &mut d0);
+        let mut i0 = vecof(math, rhs);
+        math.apply_lowrank_transform_inplace(&bv, &be, &mut i0);
+    }
     let vecs = math.new_eig_vectors(cols.iter().map(|c| c.as_slice()));
     let ev = math.new_eig_values(vals);
     let vr = vecof(math, rhs);
